@@ -42,7 +42,8 @@ META = {
     'trusted_base': ['txsa.sym interpreter', 'txsa.callgraph', 'CPython ast',
                      'atomic handlers (reactor)'],
     'assumptions': ['transport.write preserves order'],
-    'decided': ['D1 conformance of the bus path', 'D2 unique names',
+    'decided': ['D1 conformance of the bus path', 'D2 unique names; a '
+                'registered connection is unregistered on loss',
                 'D3 true sender', 'D4 unicast is unicast',
                 'D5 match-rule lifecycle (incl. RemoveMatch accounting when one '
                 'text was added several times)', 'D6 stub/skeleton agreement',
